@@ -135,6 +135,28 @@ func runC10(c *core.Ctx) {
 					disagree("key_certificate.KeyCertificate.SigningPublicKeyType", "type-differs", code, fmt.Sprint(kc.SigningPublicKeyType()))
 				}
 			}
+			// the verdict on a signing code does not depend on the crypto code next to it (known,
+			// unassigned, experimental)
+			for _, other := range []int{0, 8, 255, 65280, 65535} {
+				if kc2, _, err := key_certificate.NewKeyCertificate(rm.KeyCert(code, other, nil).Encode()); err == nil && kc2 != nil {
+					site := fmt.Sprintf("key_certificate.KeyCertificate(crypto code %d next to it)", other)
+					chk(site+".SigningPublicKeySize", kc2.SigningPublicKeySize() != 0, kc2.SigningPublicKeySize(), info.PubLen)
+					chk(site+".SignatureSize", kc2.SignatureSize() != 0, kc2.SignatureSize(), info.SigLen)
+				}
+			}
+			// the serialised size of an offline block follows from the two types: transient key length
+			// and DESTINATION signature length
+			for _, dt := range []int{7, 0, 2} {
+				dsl, _ := rm.SigLen(dt)
+				o3 := rm.Offline{Expires: 1, SigType: uint16(code), TransientKey: buf[:info.PubLen], Sig: buf[300 : 300+dsl]}
+				if known {
+					if po3, _, err := offline_signature.ReadOfflineSignature(o3.Encode(), uint16(dt)); err == nil {
+						if po3.Len() != 6+info.PubLen+dsl || len(po3.Bytes()) != 6+info.PubLen+dsl || !bytes.Equal(po3.Bytes(), o3.Encode()) {
+							disagree("offline_signature.OfflineSignature.Len", "length-differs", code, fmt.Sprintf("transient type %d under destination type %d: Len()=%d, Bytes() %d bytes, specification %d", code, dt, po3.Len(), len(po3.Bytes()), 6+info.PubLen+dsl))
+						}
+					}
+				}
+			}
 			// encrypted leaseset: sig-type acceptance and blinded key length
 			els := rm.EncryptedLeaseSet{SigType: uint16(code), BlindedKey: buf[:info.PubLen], Published: 1, Expires: 1, Inner: buf[:80], Sig: buf[200 : 200+info.SigLen]}
 			pe, rem3, err := encrypted_leaseset.ReadEncryptedLeaseSet(els.Encode())
@@ -188,6 +210,15 @@ func runC10(c *core.Ctx) {
 				chk("key_certificate.KeyCertificate.CryptoPublicKeySize", err == nil, n)
 				if kc.PublicKeyType() != code {
 					disagree("key_certificate.KeyCertificate.PublicKeyType", "type-differs", code, fmt.Sprint(kc.PublicKeyType()))
+				}
+			}
+			// the verdict on a crypto code does not depend on the signing code next to it
+			for _, other := range []int{0, 9, 12, 255, 65280, 65535} {
+				if kc2, _, err := key_certificate.NewKeyCertificate(rm.KeyCert(other, code, nil).Encode()); err == nil && kc2 != nil {
+					site := fmt.Sprintf("key_certificate.KeyCertificate(signing code %d next to it)", other)
+					chk(site+".CryptoSize", kc2.CryptoSize() != 0, kc2.CryptoSize())
+					n, err := kc2.CryptoPublicKeySize()
+					chk(site+".CryptoPublicKeySize", err == nil, n)
 				}
 			}
 			// LeaseSet2 key-length validation rule: a key of a known type must have the table's
